@@ -269,3 +269,35 @@ Proof.
   unfold_time.
   destruct (_ <=? 0) eqn:E; destruct (_ && _) eqn:E2; destruct (_ <? _) eqn:E3; cbn [loc off]; lia.
 Qed.
+
+(* the exact result of rescheduling with skip_missing: the successor occurrence if it is not
+   before the reference, else the first occurrence strictly after the reference *)
+Theorem timer_skip_exact tm r :
+  timer_ok tm -> jt_skip tm = true -> aware r = entry_aware' (jt_timing tm) ->
+  exists tm', timer_calc tm (Some r) = Ok tm' /\ timer_ok tm' /\
+              jt_type tm' = jt_type tm /\ jt_timing tm' = jt_timing tm /\ jt_skip tm' = jt_skip tm /\
+              (utc r <= utc (jt_next tm) + period_of (jt_type tm) ->
+               utc (jt_next tm') = utc (jt_next tm) + period_of (jt_type tm)) /\
+              (utc (jt_next tm) + period_of (jt_type tm) < utc r ->
+               is_next (occ (jt_type tm) (jt_timing tm)) (utc r) (utc (jt_next tm'))).
+Proof.
+  intros [Hty Hv Ho Hocc] Hs Hr. rewrite timer_calc_clock by exact Hty. rewrite Hs.
+  destruct (calc_clock_is_next _ _ (jt_next tm) Hty Hv (aware_of_off _ _ Ho)) as (n & Hn & Hon & Hnext).
+  rewrite Hn. cbn [bind].
+  assert (Heq : utc n = utc (jt_next tm) + period_of (jt_type tm)).
+  { eapply is_next_unique; [exact Hnext|]. apply occ_succ; assumption. }
+  assert (Hawn : aware n = aware r) by (rewrite Hr; apply aware_of_off; exact Hon).
+  rewrite (dt_lt_same _ _ Hawn). cbn [bind].
+  destruct (utc n <? utc r) eqn:E.
+  - destruct (calc_clock_is_next _ _ r Hty Hv Hr) as (n2 & Hn2 & Hon2 & Hnext2).
+    rewrite Hn2. cbn [bind]. exists (set_next tm n2). split; [reflexivity|].
+    unfold set_next; cbn [jt_type jt_timing jt_next jt_skip].
+    split; [constructor; cbn [jt_type jt_timing jt_next jt_skip]; try assumption; apply Hnext2|].
+    split; [reflexivity|]. split; [reflexivity|]. split; [exact Hs|].
+    split; [intros H; lia|intros _; exact Hnext2].
+  - exists (set_next tm n). split; [reflexivity|].
+    unfold set_next; cbn [jt_type jt_timing jt_next jt_skip].
+    split; [constructor; cbn [jt_type jt_timing jt_next jt_skip]; try assumption; apply Hnext|].
+    split; [reflexivity|]. split; [reflexivity|]. split; [exact Hs|].
+    split; [intros _; exact Heq|intros H; lia].
+Qed.
